@@ -165,6 +165,11 @@ fn gen_case(c: &mut Chooser) -> Case {
     if EXTS[ext].1 {
         y.push_str("      emitSchemaRuntime: true\n");
     }
+    // an explicit module specifier for the schema types: written as given into every declaration that imports them
+    if c.flag("generate.schemaModuleSpecifier") {
+        y.push_str("      schemaModuleSpecifier: \"@app/schema-types\"\n");
+        tags.push("schema-module-specifier".into());
+    }
     y.push_str("      type:\n        scalarTypes:\n          Date: string\n          Url: string\n          Json: unknown\n          Big: string\n");
     files.insert(if sub { "cfg/graphql.config.yaml".to_string() } else { "graphql.config.yaml".to_string() }, y.clone());
     Case { files, yaml: y, schema_out, resolvers_out, mode, tags }
@@ -612,6 +617,12 @@ fn check_specifier(rep: &Reporter, case: &Case, case_json: &dyn Fn(J) -> J, out:
         let Some(spec) = rest.split('"').nth(1) else { continue };
         ctr.specifiers.fetch_add(1, Ordering::Relaxed);
         let bad = |key: &str, what: String| rep.report(Violation { key: format!("e2e.specifier.{key}"), what: format!("{out}: {what}"), case: case_json(json!({"specifier": spec, "schema_output": case.schema_out})) });
+        if case.tags.iter().any(|t| t == "schema-module-specifier") {
+            if spec != "@app/schema-types" {
+                bad("configured_specifier_not_used", format!("module specifier {spec:?}, but generate.schemaModuleSpecifier is \"@app/schema-types\""));
+            }
+            continue;
+        }
         if !(spec.starts_with("./") || spec.starts_with("../")) {
             bad("not_relative", format!("module specifier {spec:?} does not start with ./ or ../"));
             continue;
